@@ -12,6 +12,7 @@ import (
 	"encoding/json"
 	"fmt"
 	"strings"
+	"time"
 
 	"verif.local/engine/evidence"
 )
@@ -159,6 +160,8 @@ type Runner struct {
 	env     *evidence.Env
 	item    int64
 	expired bool
+	cur     *evidence.Part
+	curT    time.Time
 }
 
 func NewRunner(sh *evidence.Shard, unit string, exec Exec) *Runner {
@@ -170,12 +173,22 @@ func (r *Runner) Thorough() bool { return r.env.Thorough() }
 // Part opens an enumerated family; the name is prefixed with the unit so that a replay file
 // finds its unit.
 func (r *Runner) Part(name string, alphabet any, bounds map[string]any) *evidence.Part {
+	r.Close()
 	p := r.Sh.Part(r.Unit+":"+name, "enum")
+	r.cur, r.curT = p, time.Now()
 	p.Alphabet = alphabet
 	if bounds != nil {
 		p.Bounds = bounds
 	}
 	return p
+}
+
+// Close records the wall time of the last part (informational counter max_shard_ms).
+func (r *Runner) Close() {
+	if r.cur != nil {
+		r.cur.Count("max_shard_ms", time.Since(r.curT).Milliseconds())
+		r.cur = nil
+	}
 }
 
 // Stopped reports that the deadline was hit (enumerators should unwind).
@@ -345,3 +358,31 @@ func Truncations(n, full int, boundaries []int) []int {
 	}
 	return out
 }
+
+// DatagramLimits is the set of QUIC datagram limits the fragmenting senders are run with, for a
+// message whose header (8 + varint + address) is hdr bytes long: tiny limits, the limits around
+// the header size (payload budget 1,2,3,4,8,15,16,17,32 bytes per fragment), the usual
+// 1100..1200 range and two large ones. The quick tier thins the two ranges.
+func DatagramLimits(hdr int, thorough bool) []int {
+	limits := []int{-1, 0}
+	if thorough {
+		for i := 1; i <= 40; i++ {
+			limits = append(limits, i)
+		}
+	} else {
+		limits = append(limits, 1, 2, 8, 9, 10, 11, 12, 40)
+	}
+	for _, d := range []int{-1, 0, 1, 2, 3, 4, 8, 15, 16, 17, 32} {
+		limits = append(limits, hdr+d)
+	}
+	if thorough {
+		for i := 1100; i <= 1200; i++ {
+			limits = append(limits, i)
+		}
+	} else {
+		limits = append(limits, 1100, 1199, 1200)
+	}
+	return append(limits, 1452, 65535)
+}
+
+const DatagramLimitsDoc = "-1,0, 1..40 (quick: 1,2,8..12,40), hdr+{-1,0,1,2,3,4,8,15,16,17,32}, 1100..1200 (quick: 1100,1199,1200), 1452, 65535 (hdr = header size for the address length)"
